@@ -201,7 +201,67 @@ pub fn add_ops(l: &Logical, rng: &mut Rng, shuffle: bool) -> Vec<String> {
             v.swap(i, j);
         }
     }
-    v.into_iter().map(|(id, c)| format!("a:{id:x}:{}", hex_bytes(c))).collect()
+    if !shuffle {
+        return v.into_iter().map(|(id, c)| format!("a:{id:x}:{}", hex_bytes(c))).collect();
+    }
+    // "built by any sequence of adds and removes": the same final content, reached through re-adds of the
+    // same bytes, overwrites, remove-and-add-again and temporary tiles sharing a content
+    let mut out = Vec::new();
+    let mut pending_removes: Vec<u64> = Vec::new();
+    let n = v.len();
+    for (k, (id, c)) in v.iter().enumerate() {
+        let add = format!("a:{:x}:{}", id, hex_bytes(c));
+        let noise = if n <= 40 { rng.below(4) == 0 } else { rng.below(12) == 0 };
+        if !noise {
+            out.push(add);
+            continue;
+        }
+        // a temporary id that is not part of the final content
+        let mut tmp = **id ^ 0x5a5a;
+        while l.tiles.contains_key(&tmp) || pending_removes.contains(&tmp) {
+            tmp = tmp.wrapping_add(1) & ((1 << 62) - 1);
+        }
+        match rng.below(6) {
+            0 => {
+                out.push(add.clone());
+                out.push(add);
+            }
+            1 => {
+                let other = v[rng.below(n as u64) as usize].1;
+                out.push(format!("a:{:x}:{}", id, hex_bytes(other)));
+                out.push(add);
+            }
+            2 => {
+                out.push(add.clone());
+                out.push(format!("r:{:x}", id));
+                out.push(add);
+            }
+            3 => {
+                out.push(format!("a:{tmp:x}:{}", hex_bytes(c)));
+                out.push(add);
+                pending_removes.push(tmp);
+            }
+            4 => {
+                out.push(add.clone());
+                out.push(format!("a:{tmp:x}:{}", hex_bytes(c)));
+                out.push(add);
+                out.push(format!("r:{tmp:x}"));
+            }
+            _ => {
+                out.push(format!("r:{:x}", id));
+                out.push(add);
+            }
+        }
+        if k % 5 == 0 {
+            if let Some(t) = pending_removes.pop() {
+                out.push(format!("r:{t:x}"));
+            }
+        }
+    }
+    for t in pending_removes {
+        out.push(format!("r:{t:x}"));
+    }
+    out
 }
 
 // ---------------------------------------------------------------------------------------------
@@ -227,6 +287,7 @@ pub struct ForeignOpts {
     pub unordered: bool,  // tile data not in id order, back references, separately stored duplicates
     pub empty_meta: bool,
     pub merge_runs: bool,
+    pub unknown_counts: bool, // header counters left 0 ("unknown" per the specification)
 }
 
 pub fn gen_foreign(rng: &mut Rng, o: &ForeignOpts, st: &mut Stats) -> Foreign {
@@ -375,9 +436,9 @@ pub fn gen_foreign(rng: &mut Rng, o: &ForeignOpts, st: &mut Stats) -> Foreign {
         leaf_len: leaf_sec.len() as u64,
         data_off: offs[3],
         data_len: data.len() as u64,
-        addressed,
-        entries: n_entries,
-        contents: distinct.len() as u64,
+        addressed: if o.unknown_counts { 0 } else { addressed },
+        entries: if o.unknown_counts { 0 } else { n_entries },
+        contents: if o.unknown_counts { 0 } else { distinct.len() as u64 },
         clustered,
         icomp: o.icomp,
         tcomp: rng.below(5) as u8,
@@ -389,6 +450,9 @@ pub fn gen_foreign(rng: &mut Rng, o: &ForeignOpts, st: &mut Stats) -> Foreign {
     };
     file[0..127].copy_from_slice(&spec::encode_header(&h));
     st.bump(&format!("foreign_depth_{depth}"));
+    if o.unknown_counts {
+        st.bump("foreign_unknown_counts");
+    }
     Foreign { bytes: file, tiles, header: h, meta: meta_text, depth, leaf_first_ids, run_bounds, disjoint: true }
 }
 
@@ -409,5 +473,6 @@ pub fn foreign_opts(rng: &mut Rng, k: usize, quick: bool) -> ForeignOpts {
         unordered: rng.chance(2, 5),
         empty_meta: rng.chance(1, 6),
         merge_runs: !rng.chance(1, 8),
+        unknown_counts: rng.chance(1, 5),
     }
 }
